@@ -234,6 +234,14 @@ func (s *pipeStream[T]) Next(ctx context.Context) (T, error) {
 	case item := <-s.c:
 		return item, nil
 	case <-s.senderDone:
+		// Both this arm and the one above can be ready at once, in which case select picks at
+		// random. Values that made it into the buffer before the sender closed still have to be
+		// delivered before the end is reported.
+		select {
+		case item := <-s.c:
+			return item, nil
+		default:
+		}
 		err := *s.senderErr
 		if err != nil {
 			return zero, err
